@@ -9,12 +9,13 @@ import Driver.Serial
 import Driver.SS
 import Driver.RQ
 import Driver.FH
+import Driver.EOQ
 open Lean
 
 namespace Driver
 
 def allHandlers : List (String × Handler) :=
-  Driver.WW.handlers ++ Driver.Sim.handlers ++ Driver.Helpers.handlers ++ Driver.MP.handlers ++ Driver.Graph.handlers ++ Driver.Meio.handlers ++ Driver.Serial.handlers ++ Driver.SS.handlers ++ Driver.RQ.handlers ++ Driver.FH.handlers
+  Driver.WW.handlers ++ Driver.Sim.handlers ++ Driver.Helpers.handlers ++ Driver.MP.handlers ++ Driver.Graph.handlers ++ Driver.Meio.handlers ++ Driver.Serial.handlers ++ Driver.SS.handlers ++ Driver.RQ.handlers ++ Driver.FH.handlers ++ Driver.EOQ.handlers
 
 def dispatch (line : String) : String :=
   match Json.parse line with
